@@ -354,6 +354,20 @@ func (x *Exec) libModel(fn *ssa.Function, pkg, short, name string, args []Value,
 				return &TupleV{E: []Value{c.Const(64, uint64(int64(n))), e}}, nil, true
 			}
 			return x.atoiSym(args[0].(*StrV)), nil, true
+		case "strconv.ParseInt":
+			if b, ok := args[1].(*Term); ok && b.IsConst() && b.K == 10 {
+				if bs, ok := args[2].(*Term); ok && bs.IsConst() && bs.K == 64 {
+					if allKnown(0) {
+						n, err := strconv.ParseInt(ks(args[0]), 10, 64)
+						var e Value = &IfaceV{}
+						if err != nil {
+							e = &IfaceV{T: errT, V: x.opaqueString()}
+						}
+						return &TupleV{E: []Value{c.Const(64, uint64(n)), e}}, nil, true
+					}
+					return x.atoiSym(args[0].(*StrV)), nil, true
+				}
+			}
 		}
 	}
 	return nil, nil, false
@@ -412,11 +426,14 @@ func (x *Exec) atoiSym(s *StrV) Value {
 	c := x.c
 	ss := x.strSym(s)
 	errT := types.Universe.Lookup("error").Type()
-	if len(ss.B) > 10 {
-		x.fail("atoiSym: string too long for the model (%d bytes)", len(ss.B))
-	}
-	x.modeled["strconv.Atoi(symbolic): decimal model, optional sign, <=9 digits"]++
+	x.modeled["strconv.Atoi/ParseInt(symbolic): decimal model, optional sign, <=9 digits; longer strings: arbitrary value or error"]++
 	n := len(ss.B)
+	long := c.False
+	if n > 10 {
+		// strings longer than 10 bytes: outcome unconstrained (sound over-approximation)
+		long = c.Ult(c.Const(64, 10), ss.Len)
+		n = 10
+	}
 	isDigit := func(b *Term) *Term {
 		return c.And(c.Ule(c.Const(8, '0'), b), c.Ule(b, c.Const(8, '9')))
 	}
@@ -437,6 +454,10 @@ func (x *Exec) atoiSym(s *StrV) Value {
 		ok = c.And(ok, c.Implies(in, isDigit(ss.B[i])))
 	}
 	val = c.Ite(neg, c.Neg(val), val)
+	if !long.IsFalse() {
+		ok = c.Ite(long, c.Fresh("atoi.long.ok", BoolSort), ok)
+		val = c.Ite(long, c.Fresh("atoi.long.val", BV(64)), val)
+	}
 	val = c.Ite(ok, val, c.Const(64, 0))
 	return &TupleV{E: []Value{val, &IfaceGV{G: ok, A: &IfaceV{}, B: &IfaceV{T: errT, V: x.opaqueString()}}}}
 }
